@@ -33,6 +33,8 @@ func scenarios(lg *sim.Log, seed int64) int {
 		p := w.Prods[0]
 		big := p.Ceiling * 3 / 4
 		step(Act{A: "Create", U: "u1", P: p.ID, X: 150000, Y: big})
+		// a second vault that is closed later WITHOUT an interest calculation in between: the interest accrues inside the close itself
+		step(Act{A: "Create", U: "u3", P: p.ID, X: 20000, Y: 40 * cfg.DecS})
 		for i := 0; i < 2+rng.Intn(3); i++ {
 			step(Act{A: "Block", Y: []int64{31536000, 2592000 * 3, 86400 * 200}[rng.Intn(3)]})
 			step(Act{A: "InterestCalc", U: "u2", V: 1})
@@ -46,6 +48,7 @@ func scenarios(lg *sim.Log, seed int64) int {
 		if v.id == 1 {
 			step(Act{A: "Repay", U: "u1", P: p.ID, V: 1, X: v.int + 1 + int64(rng.Intn(40))*cfg.DecS})
 		}
+		step(Act{A: "Close", U: "u3", P: p.ID, V: 2})
 		for _, u := range []string{"u2", "u3"} {
 			h := w.headroom(&p)
 			step(Act{A: "Create", U: u, P: p.ID, X: 150000, Y: clampPos(h - int64(rng.Intn(2)))})
